@@ -1,3 +1,4 @@
+import Varint.Bridge.FOR
 import Varint.Bridge.RLE
 import Varint.Lemmas.PFOR
 import Varint.Lemmas.RLEH
@@ -61,6 +62,21 @@ theorem for_meta_true (xs : List Nat) (g : FOR.Good xs) :
       · simp [h]
   exact ⟨fun x hx => ⟨FOR.minL_le xs x hx, FOR.le_maxL xs x hx⟩, hmin_mem, hmax_mem, rfl, rfl, rfl,
     (FOR.enc_length xs).symm⟩
+
+/-- **on the machine translation of `varintFORAnalyze`** (the min/max scan over the WHOLE array, regenerated from
+    src/varintFOR.c on every run): every field the C writes into the metadata struct is the model's, hence
+    (`for_meta_true`) the true minimum and maximum of the data — both are elements, every element lies between
+    them —, their difference, the bytes that difference needs, the count and the encoded size -/
+theorem c_for_analyze_true (xs : List Nat) (g : FOR.Good xs) (hn : xs.length < 2 ^ 56) (fuel : Nat)
+    (hf : xs.length + 8 ≤ fuel) :
+    let m := FOR.analyze xs
+    Varint.Gen.C.forAnalyze fuel (Varint.Bridge.Tagged.bufOf xs) xs.length =
+      some (some m.minValue, some m.maxValue, some m.range, some m.offsetWidth, some m.count, some m.encodedSize) ∧
+    (∀ x ∈ xs, m.minValue ≤ x ∧ x ≤ m.maxValue) ∧ m.minValue ∈ xs ∧ m.maxValue ∈ xs ∧
+    m.encodedSize = (FOR.enc xs).length := by
+  intro m
+  have h := for_meta_true xs g
+  exact ⟨Varint.Bridge.FOR.forAnalyze_eq xs g.ne g.lt hn fuel hf, h.1, h.2.1, h.2.2.1, h.2.2.2.2.2.2⟩
 
 /-- header accessors (GetMinValue / GetCount / GetOffsetWidth / ReadMetadata) read back what was encoded -/
 theorem for_accessor_true (xs : List Nat) (g : FOR.Good xs) (rest : List Nat) :
